@@ -173,7 +173,13 @@ def judge(ctx, R, notes, o, ret, rerun_sorted=None):
     elif rows != R.rows:
         V("rows-wrong", f"{rows} rows, expected {R.rows}", {"shape": [rows, cols]})
     # ------------------------------------------------------------------ columns
-    if exact and R.end_status in ("none", "valid"):
+    # a negative first onset without silence removal leaves the origin open; but when the notes are placed as if the roll
+    # started at the first onset (the earliest cell stands right after the leading margin), the end of the roll has to be
+    # counted from the same origin
+    placed_from_first = False
+    if R.origin_open and R.aligned and pr.nnz:
+        placed_from_first = int(pr.tocoo().col.min()) == R.lead
+    if (exact or (placed_from_first and o.get("end_time") is not None)) and R.end_status in ("none", "valid"):
         ctx.check()
         if cols not in R.cols_ok:
             if o.get("end_time") is not None and R.lead > 0 and cols + R.lead in R.cols_ok:
